@@ -90,7 +90,10 @@ def predicates(full=True):
     if full:
         p += [[num(2)], [b('>', pos, num(1))], [b('=', pos, last)], [path(step('child', name('a')))],
               [b('=', path(step('self', NODE)), s('t'))], [num(2), num(1)], [path(step('attribute', name('x'))), num(1)],
-              [b('<', pos, last)], [fn('not', path(step('child', WILD)))], [b('-', last, num(1))]]
+              [b('<', pos, last)], [fn('not', path(step('child', WILD)))], [b('-', last, num(1))],
+              # chained predicates whose second one asks position()/last() again for a node the first one asked about
+              [b('=', pos, last), b('=', pos, num(1))], [b('>', pos, num(1)), b('=', pos, num(1))], [last, b('=', pos, last)],
+              [b('>', pos, num(1)), last], [b('=', pos, last), num(1), b('=', pos, num(1))]]
     return p
 
 
